@@ -518,6 +518,26 @@ func (g *resGen) stringFor(name string) string {
 	case "Uuid":
 		return "urn:uuid:123e4567-e89b-12d3-a456-42661417400" + fmt.Sprint(g.s.Intn(10))
 	case "Decimal":
+		if g.s.Prob(35) {
+			// 16..21 digits with the point anywhere (around the width of a 64-bit coefficient), or a
+			// value between -1 and 1 with its zero written out
+			if g.s.Prob(30) {
+				return pickOne(g.s, []string{"-0.", "0.", "-0.0", "-0.00"}) + g.s.Str(digits, 1, 6)
+			}
+			ds := pickOne(g.s, []string{"9223372036854775807", "9223372036854775808", "9999999999999999999", "18446744073709551616", "1000000000000000000", ""})
+			if ds == "" {
+				ds = g.s.Str([]string{"1", "2", "9", "8", "5"}, 1, 1) + g.s.Str(digits, 15, 20)
+			}
+			k := g.s.Range(1, len(ds))
+			txt := ds[:k]
+			if k < len(ds) {
+				txt += "." + ds[k:]
+			}
+			if g.s.Bool() {
+				txt = "-" + txt
+			}
+			return txt
+		}
 		return pickOne(g.s, genDecimals)
 	case "Xhtml":
 		return "<div xmlns=\"http://www.w3.org/1999/xhtml\">" + pickOne(g.s, []string{"x", "y", "text"}) + "</div>"
